@@ -118,15 +118,18 @@ def dPair (d : DictL) (op : Nat) : Option (Int × Int) :=
 def defaultFM : List Rl := [(false, 1, -3), Rl.zero, Rl.zero, (false, 1, -3), Rl.zero, Rl.zero]
 def identityFM : List Rl := [(false, 1, 0), Rl.zero, Rl.zero, (false, 1, 0), Rl.zero, Rl.zero]
 
+/-- `x.(float64)`: only real operands qualify -/
+def realOf : Operand → Option Rl
+  | .real n m e => some (normReal n m e)
+  | _ => none
+
 /-- `getFontMatrix`: six operands, all of them reals (`float64`), else the default -/
 def dFontMatrix (d : DictL) (op : Nat) (isCID : Bool) : List Rl :=
   let dflt := if isCID then identityFM else defaultFM
   let xs := dGet d op
   if xs.length ≠ 6 then dflt
   else
-    match xs.mapM (fun o => match o with
-      | .real n m e => some (normReal n m e)
-      | _ => none) with
+    match xs.mapM realOf with
     | some l => l
     | none => dflt
 
@@ -269,6 +272,12 @@ def mapOutcomeL {α β : Type} (f : α → Outcome β) : List α → Outcome (Li
     | .err e => .err e
     | .panic s => .panic s
 
+/-- `strings.get(charset[gid])` -/
+def sidName (std custom : Array String) (sid : Int) : Outcome String :=
+  match stringsGet std custom sid with
+  | some s => .ok s
+  | none => .err "other"
+
 def readFont (T : Tables) (data : Bytes) : Outcome FontOut :=
   match rd data 0 4 with
   | none => .err "eof"
@@ -373,10 +382,7 @@ def readFont (T : Tables) (data : Bytes) : Outcome FontOut :=
     -- glyph names
     let namesRes : Outcome (List String) :=
       if isCID then .ok []
-      else mapOutcomeL (fun (sid : Int) =>
-        match stringsGet T.std custom1.toArray sid with
-        | some s => .ok s
-        | none => .err "other") charset
+      else mapOutcomeL (sidName T.std custom1.toArray) charset
     match namesRes with
     | .err e => .err e | .panic s => .panic s
     | .ok names =>
